@@ -85,9 +85,16 @@ class TypeScriptMagicNumberAnalyzer(TypeScriptBaseAnalyzer):  # thailint: ignore
             Numeric value (int or float) or None if parsing fails
         """
         text = self.extract_node_text(node)
+        # BigInt literals (10n) carry an "n" suffix that int() does not understand
+        if text.endswith("n"):
+            text = text[:-1]
+        lowered = text.lower()
         try:
+            # Prefixed literals are integers even when a hex digit happens to be "e" (0xFE)
+            if lowered.startswith(("0x", "0o", "0b")):
+                return int(text, 0)
             # Try int first
-            if "." not in text and "e" not in text.lower():
+            if "." not in text and "e" not in lowered:
                 return int(text, 0)  # Handles hex, octal, binary
             # Otherwise float
             return float(text)
